@@ -45,6 +45,7 @@ func checkC02(c *Ctx, r *Report) {
 	checkDMEdifactEOD(c, r)
 	checkDMEdifactDecode(c, r)
 	checkDMC40EOD(c, r)
+	checkDMC40End(c, r)
 	checkDMCharset(c, r)
 	checkDMNativeChars(c, r)
 	checkDMLookup(c, r) // the size hints: a text that fits a permitted symbol is not refused (same obligations as under C13)
@@ -1996,4 +1997,169 @@ func checkDMEdifactDecode(c *Ctx, r *Report) {
 	}
 	r.Extra("S-DMEDIDEC folds", folds)
 	reportFold(r, c, "S-DMEDIDEC", key, fd.Pos(), bad)
+}
+
+// S-DMC40END: the C40 / Text encoder's backtracking at the end of the text
+func checkDMC40End(c *Ctx, r *Report) {
+	r.Rule("S-DMC40END", "C40Encoder.encode, end of the text: (1) the number of values a backtrack removes from the buffer is the size of the character that is last in the buffer at that moment - it is never the size backtrackOneCharacter returned for the character it removed before (on the SSA form: no value flows from a result of backtrackOneCharacter into the size argument of a later call); (2) a last character that needs two ASCII codewords - above 0x7F, which both character encoders, folded for all 256 bytes, write with three or four values and everything else with one or two - is never left to the ending that has one codeword free: the backtracking condition, folded with one pending value, one codeword free and a last character of 3 or 4 values, holds (and does not hold for 1 or 2 values)", 2)
+	key := "datamatrix/encoder.C40Encoder.encode"
+	f := c.ssaFunc("datamatrix/encoder", "C40Encoder.encode")
+	fd, p := c.funcDeclOf("datamatrix/encoder", "C40Encoder.encode")
+	if f == nil || fd == nil {
+		r.AnchorLost("S-DMC40END", key, "method not found")
+		return
+	}
+	// (1) dataflow on SSA
+	r.Analysed(key + "/backtrack-size")
+	isBT := func(v ssa.Value) *ssa.Call {
+		call, ok := v.(*ssa.Call)
+		if ok {
+			if g := call.Call.StaticCallee(); g != nil && g.Name() == "backtrackOneCharacter" {
+				return call
+			}
+		}
+		return nil
+	}
+	var fromBT func(v ssa.Value, seen map[ssa.Value]bool) bool
+	fromBT = func(v ssa.Value, seen map[ssa.Value]bool) bool {
+		if seen[v] {
+			return false
+		}
+		seen[v] = true
+		switch x := v.(type) {
+		case *ssa.Extract:
+			return isBT(x.Tuple) != nil && x.Index == 0
+		case *ssa.Phi:
+			for _, e := range x.Edges {
+				if fromBT(e, seen) {
+					return true
+				}
+			}
+		}
+		return false
+	}
+	bad := ""
+	nCalls := 0
+	for _, b := range f.Blocks {
+		for _, in := range b.Instrs {
+			if call := isBT(valueOf(in)); call != nil {
+				nCalls++
+				args := call.Call.Args
+				if len(args) > 0 && fromBT(args[len(args)-1], map[ssa.Value]bool{}) {
+					bad = "the size of the character to remove, at " + c.pos(call.Pos()) + ", can be the size the previous backtrack returned for the character it had removed: after two backtracks over characters of different sizes values of a third character are cut off and that character is lost"
+				}
+			}
+		}
+	}
+	if nCalls == 0 {
+		bad = "?no call of backtrackOneCharacter found"
+	}
+	reportFold(r, c, "S-DMC40END", key+"/backtrack-size", fd.Pos(), bad)
+	// (2) the loop condition and the sizes of upper-shifted characters
+	r.Analysed(key + "/two-codeword-character")
+	bad = ""
+	for _, name := range []string{"c40EncodeChar", "textEncodeChar"} {
+		efd, ep := c.funcDeclOf("datamatrix/encoder", name)
+		if efd == nil {
+			bad = "?" + name + " not found"
+			break
+		}
+		for ch := int64(0); ch < 256 && bad == ""; ch++ {
+			res, err := c.rpfCall(efd, ep, []*Val{vint(ch), emptyBytes()}, nil)
+			if err != nil || len(res) != 2 || res[0].K != VInt {
+				bad = fmt.Sprintf("?%s(0x%02X): %v", name, ch, err)
+				break
+			}
+			if (ch >= 128) != (res[0].I >= 3) {
+				bad = fmt.Sprintf("?%s(0x%02X) takes %d values: the size no longer tells an upper-shifted character from the others", name, ch, res[0].I)
+			}
+		}
+	}
+	var loop *ast.ForStmt
+	ast.Inspect(fd.Body, func(n ast.Node) bool {
+		if fs, ok := n.(*ast.ForStmt); ok && fs.Init == nil && fs.Post == nil && fs.Cond != nil {
+			if len(findCalls(p, fs.Body, func(o types.Object) bool {
+				fn, ok := o.(*types.Func)
+				return ok && fn.Name() == "backtrackOneCharacter"
+			})) > 0 {
+				loop = fs
+			}
+		}
+		return true
+	})
+	if bad == "" && loop == nil {
+		bad = "?the backtracking loop was not found"
+	}
+	if bad == "" {
+		// free variables of the condition: the buffer (its length is taken), the size, the free codewords
+		// the three quantities of the condition: the buffer whose length modulo 3 is taken, the free codewords
+		// (compared with a constant for equality) and the size of the last character (ordered against a constant: a
+		// variable, or an element of the list of sizes)
+		var bufObj, availObj types.Object
+		var sizeExpr ast.Expr
+		ast.Inspect(loop.Cond, func(n ast.Node) bool {
+			be, ok := n.(*ast.BinaryExpr)
+			if !ok {
+				return true
+			}
+			switch be.Op {
+			case token.REM:
+				if call, isC := ast.Unparen(be.X).(*ast.CallExpr); isC && isBuiltin(typeutil.Callee(p.TypesInfo, call), "len") && len(call.Args) == 1 {
+					bufObj = identObj(p, call.Args[0])
+				}
+			case token.NEQ, token.EQL:
+				if _, isK := constInt(p, be.Y); isK {
+					if o := identObj(p, be.X); o != nil {
+						availObj = o
+					}
+				}
+			case token.LSS, token.LEQ:
+				if _, isK := constInt(p, be.X); isK {
+					sizeExpr = ast.Unparen(be.Y)
+				} else if _, isK := constInt(p, be.Y); isK {
+					sizeExpr = ast.Unparen(be.X)
+				}
+			}
+			return true
+		})
+		if bufObj == nil || sizeExpr == nil || availObj == nil {
+			bad = "?the backtracking condition does not have the shape pending values / size of the last character / free codewords"
+		}
+		sizeObj := identObj(p, sizeExpr)
+		for size := int64(1); size <= 4 && bad == ""; size++ {
+			buf := &Val{K: VList}
+			for i := 0; i < 4; i++ {
+				buf.L = append(buf.L, vint(5))
+			}
+			env := map[types.Object]*Val{bufObj: buf, availObj: vint(1)}
+			if sizeObj != nil {
+				env[sizeObj] = vint(size)
+			}
+			sz := size
+			hk := &rpf{idxHook: func(rr *rpf, ix *ast.IndexExpr) (*Val, bool) {
+				if ast.Expr(ix) == sizeExpr {
+					return vint(sz), true
+				}
+				return nil, false
+			}}
+			v, err := c.rpfExpr(p, loop.Cond, env, hk)
+			if err != nil || v.K != VBool {
+				bad = fmt.Sprintf("?condition not foldable: %v", err)
+				break
+			}
+			if v.B != (size >= 3) {
+				if size >= 3 {
+					bad = fmt.Sprintf("one pending value, one codeword free, last character of %d values (above 0x7F): no backtrack - the character is handed to the ASCII encoder, which needs two codewords for it; the symbol grows, the unlatch is missing and the parser reads the rest as C40 / Text data", size)
+				} else {
+					bad = fmt.Sprintf("one pending value, one codeword free, last character of %d values: backtracked although it fits the free codeword", size)
+				}
+			}
+		}
+	}
+	reportFold(r, c, "S-DMC40END", key+"/two-codeword-character", fd.Pos(), bad)
+}
+
+func valueOf(in ssa.Instruction) ssa.Value {
+	v, _ := in.(ssa.Value)
+	return v
 }
